@@ -123,7 +123,17 @@ func verifDeepRestamp(v any, servedBy string) any {
 /* the object of a legitimate activity, in one of several provenance situations */
 func (w *verifLW) object(k int) any {
 	p := fmt.Sprintf("/s%d/n%d", w.sid, k)
-	switch w.rng.Intn(14) {
+	switch w.rng.Intn(15) {
+	case 14: /* the owner's note replies to an address on B that redirects to a note A serves; that note embeds an author with a B id */
+		victim := w.actor(w.B.URL(fmt.Sprintf("/s%d/q", w.sid)), "B")
+		w.publish(victim)
+		forged := w.note(w.A.URL(p+"/forgedparent"), "A", verifRestamp(victim, "A"), nil)
+		w.publish(forged)
+		hop := fmt.Sprintf("/s%d/r%d", w.sid, k)
+		w.B.Set(hop, &verifsim.Route{Raw: []byte("HTTP/1.1 302 Found\r\nLocation: " + forged["id"].(string) + "\r\n\r\n")})
+		n := w.note(w.A.URL(p), "A", w.owner, w.B.URL(hop))
+		w.publish(n)
+		return n
 	case 10: /* a note without an id, embedded by A, that names an author on another host */
 		m := w.actor(w.M.URL(fmt.Sprintf("/s%d/m", w.sid)), "M")
 		w.publish(m)
@@ -369,6 +379,12 @@ func (w *verifLW) inspect(out *verifkit.Trace, item Tangible, desc string) {
 		w.acceptEvent(out, "actor", x.id, verifStampOf(x.name), desc)
 	case *Post:
 		w.acceptEvent(out, "post", x.id, verifStampOf(x.title), desc)
+		/* walking up the thread, as a page does */
+		if !strings.Contains(desc, "/parent") {
+			if parents, _ := x.Parents(1); len(parents) == 1 {
+				w.inspect(out, parents[0], desc+"/parent")
+			}
+		}
 		for _, c := range x.creators {
 			if a, ok := c.(*Actor); ok {
 				w.inspect(out, a, desc+"/author")
@@ -399,6 +415,7 @@ func verifRunListing(out *verifkit.Trace, w *verifLW, in verifListingIn) {
 	entries := make([]any, len(in.Classes))
 	out.Emit(verifkit.M{"ev": "begin", "sid": w.sid, "kind": in.Kind, "owner": in.Owner, "classes": in.Classes, "place": in.Place})
 	var rootURL string
+	var rootDoc map[string]any /* owner "anon": the owner has no id and is opened as a document, not by address */
 	if in.Kind == "outbox" {
 		for k, c := range in.Classes {
 			entries[k] = w.outboxEntry(c, k)
@@ -451,6 +468,14 @@ func verifRunListing(out *verifkit.Trace, w *verifLW, in verifListingIn) {
 		}
 		w.publish(owner)
 		rootURL = w.owner
+		if in.Owner == "anon" {
+			rootDoc = map[string]any{}
+			for k, v := range owner {
+				if k != "id" {
+					rootDoc[k] = v
+				}
+			}
+		}
 	} else {
 		parent := w.A.URL(fmt.Sprintf("/s%d/notes/n", w.sid))
 		for k, c := range in.Classes {
@@ -469,7 +494,8 @@ func verifRunListing(out *verifkit.Trace, w *verifLW, in verifListingIn) {
 				n["replies"] = w.A.URL(foreign)
 				w.A.Set(foreign, &verifsim.Route{Raw: []byte("HTTP/1.1 302 Found\r\nLocation: " + w.B.URL(foreign) + "\r\n\r\n")})
 			}
-		} else if w.rng.Intn(2) == 0 {
+		} else if w.rng.Intn(2) == 0 || in.Owner == "anon" {
+			/* (a collection with an id embedded in a document without one is fetched from its id: serve it) */
 			w.publish(replies)
 			n["replies"] = replies["id"]
 		} else {
@@ -477,11 +503,25 @@ func verifRunListing(out *verifkit.Trace, w *verifLW, in verifListingIn) {
 		}
 		w.publish(n)
 		rootURL = parent
+		if in.Owner == "anon" {
+			/* an anonymous note cannot name an identified author (that would be a forged creator) */
+			rootDoc = map[string]any{}
+			for k, v := range n {
+				if k != "id" && k != "attributedTo" {
+					rootDoc[k] = v
+				}
+			}
+		}
 	}
 	shown := []string{}
 	var what string
 	panicked, what := verifkit.Try(func() {
-		root := New(rootURL, nil)
+		var root any
+		if rootDoc != nil {
+			root = New(rootDoc, nil)
+		} else {
+			root = New(rootURL, nil)
+		}
 		tangible, ok := root.(Tangible)
 		if !ok {
 			panic(fmt.Sprintf("owner is a %T", root))
@@ -533,14 +573,17 @@ func TestVerifListing(t *testing.T) {
 		verifRunListing(out, w, s)
 	}
 	for i := 0; i < in.Random; i++ {
-		s := verifListingIn{Kind: "outbox", Owner: []string{"path", "query"}[w.rng.Intn(2)]}
+		s := verifListingIn{Kind: "outbox", Owner: []string{"path", "query", "path", "query", "anon"}[w.rng.Intn(5)]}
 		pool := in.Outbox
 		if w.rng.Intn(3) == 0 {
-			s.Kind, s.Owner, pool = "replies", "path", in.Replies
+			s.Kind, s.Owner, pool = "replies", []string{"path", "path", "anon"}[w.rng.Intn(3)], in.Replies
 		}
 		s.Place = "own"
 		if s.Owner == "path" && w.rng.Intn(3) == 0 {
 			s.Place = []string{"foreign_anon", "redirect_anon", "inline_anon"}[w.rng.Intn(3)]
+		}
+		if s.Owner == "anon" && w.rng.Intn(2) == 0 {
+			s.Place = "inline_anon"
 		}
 		for k := 3 + w.rng.Intn(6); k > 0; k-- {
 			s.Classes = append(s.Classes, pool[w.rng.Intn(len(pool))])
